@@ -117,7 +117,7 @@ SIM_COMPONENTS_SIMULATED = ["thread scheduler: every std::thread / std::mutex / 
 
 CHECKS["C18"] = {
     "id": "C18", "engine": "sched+sync+race", "flavour": "thr", "binary": "build/thr/c18", "level": "exploration",
-    "tiers": {"quick": {"runs": 100000, "batch": 250, "wall_cap": 300}, "thorough": {"runs": 3000000, "batch": 500, "wall_cap": 2400}},
+    "tiers": {"quick": {"runs": 60000, "batch": 250, "wall_cap": 300}, "thorough": {"runs": 3000000, "batch": 500, "wall_cap": 2400}},
     "rule": "one case = a seeded workload (parallel constructSurrogate: family, rule, dims, outputs, jobs 1-6, batch 1-3, budget 1-35 incl. below the job count, tolerance/criteria or anisotropic type/weights, "
             "level limits, initial guess, optionally a pre-loaded grid, public overload or constructCommon; or threaded loadNeededValues: 0-6 threads, overwrite or not, array or vector overload, fresh/loaded/refined grid) "
             "+ a latency model (zero, uniform, heavy-tailed, one slow worker, equal) + one seeded schedule (strategy, pre-emption rate, spurious wake-ups, notify target); "
